@@ -149,10 +149,14 @@ def run_driver(driver, lines, results):
     return verdicts
 
 
-def run_cases(build, driver, cases, timeout_s=10):
-    """cases: list of case texts (without id). Returns list of dict(case, result, verdict)."""
+def run_cases(build, driver, cases, timeout_s=10, isolate=False):
+    """cases: list of case texts (without id). Returns list of dict(case, result, verdict).
+    isolate: every case in its own harness process (process-wide state such as the MTBDD node store starts fresh)."""
     lines = [f"{i} {c}" for i, c in enumerate(cases)]
-    chunks = [lines[i::NWORKERS] for i in range(NWORKERS)]
+    if isolate:
+        chunks = [[ln] for ln in lines]
+    else:
+        chunks = [lines[i::NWORKERS] for i in range(NWORKERS)]
     chunks = [c for c in chunks if c]
 
     def work(chunk):
@@ -221,7 +225,7 @@ def shrink(build, driver, case, cls, budget=200):
         cands = (list(drop_steps(cur)) + list(variants(cur)))[: 96]
         if not cands:
             break
-        rs = run_cases(build, driver, cands)
+        rs = run_cases(build, driver, cands, isolate=True)
         steps += len(cands)
         for r in rs:
             v = r["verdict"]
@@ -338,10 +342,19 @@ def main():
     if violations:
         # genuine violations first (a proved checker refutes the predicate), then mismatches
         violations.sort(key=lambda r: (0 if r["verdict"].startswith("violation") else 1, len(r["case"])))
+        # prefer a case that also fails when run alone in a fresh process (not a victim of process-wide state left
+        # behind by an earlier failing case)
         first = violations[0]
+        for cand in violations[:12]:
+            r1 = run_cases(build, driver, [cand["case"]], cfg.get("timeout", 10), isolate=True)[0]
+            if not r1["verdict"].startswith("ok") and not r1["verdict"].startswith("error"):
+                first = r1
+                break
         cls = finding_class(first["verdict"])
         small = shrink(build, driver, first["case"], cls)
-        rs = run_cases(build, driver, [small], cfg.get("timeout", 10))[0]
+        rs = run_cases(build, driver, [small], cfg.get("timeout", 10), isolate=True)[0]
+        if rs["verdict"].startswith("ok"):
+            small, rs = first["case"], first
         k = 0
         while os.path.exists(os.path.join(VERIF, "evidence", "replays", f"{prop}-{k}.json")):
             k += 1
